@@ -104,7 +104,7 @@ def inlineSels (frags : List FragDef) : Nat → List Sel → List Sel
       | none => .spread n dirs pos
     | .inline c dirs sub pos => .inline c dirs (inlineSels frags f sub) pos
 
-def inline (fuel : Nat) (d : Doc) : Doc :=
+def inlineDoc (fuel : Nat) (d : Doc) : Doc :=
   { ops := d.ops.map fun o => { o with sels := inlineSels d.frags fuel o.sels }, frags := [] }
 
 -- ------------------------------------------------------------------ measures of a spread-free tree
@@ -207,8 +207,8 @@ def verdict (cfg : Config) (nest dirs cx dp : Nat) : Verdict :=
   else .accept
 
 /-- the required verdict for document `d` (expanded with `fuel`) -/
-def decide (cfg : Config) (S : Schema) (R : Rules) (ρ : ArgEnv) (fuel : Nat) (d : Doc) : Verdict :=
-  let d' := inline fuel d
+def required (cfg : Config) (S : Schema) (R : Rules) (ρ : ArgEnv) (fuel : Nat) (d : Doc) : Verdict :=
+  let d' := inlineDoc fuel d
   verdict cfg (nesting d') (maxDirectives d') (complexity S R ρ d') (depth S d')
 
 end AGV.Spec.Limits
